@@ -614,6 +614,95 @@ func runTagFailure(c *Case, n, answered int) error {
 	return nil
 }
 
+// TestStaleReplyInFlight: a reply carrying the tag of a request that is queued
+// for sending but not yet written (a duplicate of an earlier reply: tags are
+// recycled with their request slots) must not crash or hang the client.
+func TestStaleReplyInFlight(t *testing.T) {
+	if hx.Shard != 0 {
+		return
+	}
+	for rep := 0; rep < hx.N(6, 40); rep++ {
+		for _, dotu := range []bool{false, true} {
+			c := &Case{Dotu: dotu, Msize: 512, Fail: "stale-inflight", Prelude: 1}
+			hx.Journal("staleinflight", c)
+			hx.Eval()
+			hx.Label("stale reply for a request in the send queue")
+			b, _ := json.Marshal(c)
+			hx.NonTrivial(b, rep)
+			err := runStaleInFlight(c)
+			if h, ok := err.(hangErr); ok {
+				if blocked := hx.BlockedInGo9p(); blocked != "" {
+					err = fmt.Errorf("%s; goroutines blocked inside go9p:\n%s", string(h), blocked)
+				} else {
+					hx.Inconclusive(string(h))
+					err = nil
+				}
+			}
+			if err != nil {
+				hx.Violation("staleinflight", c, err.Error())
+				t.Fatalf("%v", err)
+			}
+		}
+	}
+}
+
+func runStaleInFlight(c *Case) error {
+	p := peer.New("c10stale", c.Msize, true)
+	p.Start(false)
+	clnt, err := go9p.Connect(p.Lib, c.Msize, c.Dotu)
+	if err != nil {
+		return fmt.Errorf("Connect: %v", err)
+	}
+	defer clnt.Unmount()
+	fid := clnt.FidAlloc()
+	// one completed call; its request slot (and tag) is cached for the next call
+	ch := make(chan *result, 1)
+	go func() { ch <- doCall(clnt, "stat", fid, 0) }()
+	r, _ := p.Next(deadline)
+	if r == nil {
+		return hangErr("peer: request did not arrive")
+	}
+	first := p.Encode(peer.Answer(r.Msg))
+	_ = p.Write(first, nil)
+	if res := <-ch; res.err != nil {
+		return fmt.Errorf("first call failed on a healthy connection: %v", res.err)
+	}
+	// the next call is held in the writer, after it left the queue and before it is written
+	key := fmt.Sprintf("Tstat/%d", fid.Fid)
+	ctl := sched.New([]sched.Hold{{Who: key, At: "clnt.send.dequeued", UntilWho: "harness", UntilPoint: "go"}})
+	ctl.Timeout = 3 * time.Second
+	defer sched.Install(ctl)()
+	go func() { ch <- doCall(clnt, "stat", fid, 0) }()
+	if !ctl.WaitSeen(key, "clnt.send.dequeued", 2*time.Second) {
+		ctl.Signal("harness", "go")
+		<-ch
+		return nil // the request slot was not reused as expected: nothing to observe
+	}
+	// the peer repeats its earlier reply (same tag) although it has not seen the new request
+	_ = p.Write(first, nil)
+	select {
+	case <-ch:
+	case <-time.After(500 * time.Millisecond):
+	}
+	ctl.Signal("harness", "go")
+	// the client must still be alive: one more call returns (with whatever result)
+	time.Sleep(2 * time.Millisecond)
+	go func() { ch <- doCall(clnt, "stat", clnt.FidAlloc(), 0) }()
+	for {
+		r, _ := p.Next(100 * time.Millisecond)
+		if r == nil {
+			break
+		}
+		_ = p.Write(p.Encode(peer.Answer(r.Msg)), nil)
+	}
+	select {
+	case <-ch:
+	case <-time.After(deadline):
+		return hangErr("a call made after a stale reply did not return")
+	}
+	return nil
+}
+
 func seq(n int) []int {
 	s := make([]int, n)
 	for i := range s {
